@@ -10,6 +10,7 @@ mod c01;
 mod c02;
 mod c03;
 mod c04;
+mod c04_real;
 mod c05;
 mod c06;
 mod c07;
@@ -23,6 +24,7 @@ mod c12_world;
 mod c13;
 mod c14;
 mod c15;
+mod c15_real;
 mod c16;
 mod c16_real;
 mod c17;
